@@ -79,6 +79,48 @@ def run_world_strict(case, ctx):
 				if not ok:
 					classes.add('world_no_common_ancestor')
 			preds.append(out)
+			if variant == 'a' and case.get('cli'):
+				# the same strict classification through the command line: genome files and a pre-computed signature file,
+				# output to a file (in process) and to the standard output of a real process with the default progress display
+				import json as _json, os as _os, shutil as _sh
+				from vlib import clihelp as H
+				from vlib.cli import run_cli, run_cli_subprocess
+				cd = ctx.fresh_dir('c10cli')
+				try:
+					nq = len(W.query_sigs)
+					qpaths = H.write_genomes(_os.path.join(cd, 'q'), W.query_contigs, [f'q{i}.fasta' for i in range(nq)])
+					qsig = _os.path.join(cd, 'q.gs')
+					H.write_sigfile(qsig, W.query_contigs, W.k, W.prefix, [f'qid{i}' for i in range(nq)])
+					want_keys = []
+					for qi in range(nq):
+						matched = [F.match(W.w['genomes'][j]['taxon'], W.dist(qi, j)) for j in range(len(W.ref_sigs))]
+						cons, others, ok = F.consensus({m for m in matched if m is not None})
+						rep = F.reportable(cons) if cons is not None else None
+						want_keys.append(None if rep is None else f'world/t{rep}')
+					runs = [('files', qpaths, False), ('sigfile', ['-s', qsig], False)]
+					if ctx.cache.get('c10_stdout', 0) < (2 if ctx.tier == 'quick' else 30):
+						ctx.cache['c10_stdout'] = ctx.cache.get('c10_stdout', 0) + 1
+						runs.append(('files_stdout', qpaths, True))
+					for tag, inp, to_stdout in runs:
+						outp = _os.path.join(cd, f'{tag}.json')
+						if to_stdout:
+							r = run_cli_subprocess(['-d', W.dir, 'query', '--strict', '-f', 'json'] + inp)
+							text = r.stdout
+						else:
+							r = run_cli(['-d', W.dir, 'query', '--strict', '-f', 'json', '-o', outp, '--no-progress'] + inp)
+							text = open(outp, encoding='utf-8').read() if _os.path.exists(outp) else ''
+						if r.exit_code != 0:
+							raise Violation('cli_failed', f'gambit query --strict ({tag}) exited {r.exit_code}: {r.stderr[-300:]}', case)
+						try:
+							items = _json.loads(text)['items']
+						except Exception as e:
+							raise Violation('cli_output_invalid', f'gambit query --strict -f json ({tag}): output is not the JSON document: {type(e).__name__}: {e}', case)
+						got_keys = [None if it['predicted_taxon'] is None else it['predicted_taxon']['key'] for it in items]
+						if got_keys != want_keys:
+							raise Violation('cli_strict', f'gambit query --strict ({tag}): reported taxa {got_keys}, strict consensus model gives {want_keys}', case)
+					classes.add('cli_strict')
+				finally:
+					_sh.rmtree(cd, ignore_errors=True)
 			if variant == 'b' and case.get('reassign') is not None:
 				# the loaded (persisted) objects are edited in memory - some genomes are moved to another taxon, never flushed -
 				# and classified again directly: the result must follow the objects as they are now
@@ -279,7 +321,7 @@ def gen_case(draw, tier):
 		wthr = st.one_of(st.just({'kind': 'none'}), st.floats(0.5, 1).map(lambda v: {'kind': 'val', 'v': v}), st.just({'kind': 'val', 'v': 1.0}),
 		                 st.builds(lambda i, k: {'kind': k, 'i': i}, st.integers(0, 60), st.sampled_from(['dist', 'dist_up', 'dist_down32'])))
 		return {'kind': 'world_strict', 'world': draw(Wd.world(max_refs=7, min_refs=2, max_queries=3, nasty_names=False, thr=wthr)),
-		        'perm2': draw(st.integers(1001, 2000)),
+		        'perm2': draw(st.integers(1001, 2000)), 'cli': draw(st.booleans()),
 		        'reassign': draw(st.one_of(st.none(), st.lists(st.tuples(st.integers(0, 6), st.integers(0, 13)).map(list), min_size=1, max_size=3)))}
 	thr = st.one_of(
 		st.just({'kind': 'none'}),
